@@ -1596,8 +1596,9 @@ else:
             connector_owner = True
             connector = TCPConnector(force_close=True)
 
+        # ``cookies`` stay in kwargs: they are cookies to send with this request
+        # (confined to its origin across redirects), not cookies of the session.
         session = ClientSession(
-            cookies=kwargs.pop("cookies", None),
             version=version,
             timeout=kwargs.pop("timeout", sentinel),
             connector=connector,
